@@ -717,11 +717,48 @@ class InlineWalker(Walker):
                 return self.inline_call(st, cb, args)
         return None
 
+    def place_term(self, st, p, read=True):
+        t = super().place_term(st, p, read)
+        return self.outer(st, t) if read else t
+
+    def outer(self, st, t, depth=0):
+        """value of a place inside a caller's local whose address was passed down (`&mut best` -> `(*best).1`)"""
+        if not isinstance(t, tuple) or not t or depth > 6:
+            return t
+        if t[0] == "local" and len(t) > 2 and t[2] != self.body.path:
+            return st["mem"].get(t, t)
+        if t[0] == "field" and isinstance(t[1], tuple) and t[1] and t[1][0] in ("local", "field"):
+            base = self.outer(st, t[1], depth + 1)
+            if base is not t[1] and isinstance(base, tuple) and base:
+                try:
+                    i = int(t[2])
+                except (TypeError, ValueError):
+                    i = None
+                if base[0] == "tuple" and i is not None and i < len(base[1]):
+                    return base[1][i]
+                if base[0] == "agg" and i is not None and i < len(base[4]):
+                    return base[4][i]
+                return ("field", base, t[2])
+        return t
+
     def inline_call(self, st, callee, args):
         w = InlineWalker(callee, self.facts, self.pred, depth=self.depth + 1, max_paths=self.max_paths, unroll=self.unroll)
         w.root = self.root
         s2 = self.fork(st)
         caller_env, caller_visits, caller_blocks = s2["env"], s2["visits"], s2["blocks"]
+        # locals of the caller whose address is handed to the callee: their current values travel in `mem`
+        passed = []
+
+        def addr(t, depth=0):
+            if isinstance(t, tuple) and t and depth < 8:
+                if t[0] == "local" and len(t) > 2 and t[2] == self.body.path and t[1] in caller_env:
+                    passed.append(t)
+                for x in t:
+                    addr(x, depth + 1)
+        for a in args:
+            addr(a)
+        for t in passed:
+            s2["mem"][t] = caller_env[t[1]]
         s2["env"] = {i + 1: a for i, a in enumerate(args)}
         s2["visits"], s2["blocks"] = {}, []
         w.init_env = dict(s2["env"])
@@ -731,6 +768,9 @@ class InlineWalker(Walker):
             if p.end[0] == "return":
                 ns = p.state
                 ns["env"] = dict(caller_env)
+                for t in passed:                      # what the callee stored through the reference becomes the local's value
+                    if t in ns["mem"]:
+                        ns["env"][t[1]] = ns["mem"].pop(t)
                 ns["visits"], ns["blocks"] = dict(caller_visits), list(caller_blocks)
                 forks.append({"state": ns, "res": p.ret})
             else:
